@@ -456,6 +456,9 @@ def gen_history(rng, stream: str = "main", max_ops: int = 40) -> Hist:
             # implementation derives from the settings alone (registry name, memo key) is then shared by the positions
             one_field = rng.random() < 0.5
             twin = rng.random() < 0.6
+            as_codec = one_field and rng.random() < 0.35      # BasicDecoder(Tuple[<site 0>, <site 1>, ..]): the same positions in a codec
+            if as_codec:
+                hname, dial = "DEC" + str(len(sites)), False
             for j in range(k):
                 s = site_settings("holder", True)
                 s["wiring"] = "holder"
@@ -466,7 +469,9 @@ def gen_history(rng, stream: str = "main", max_ops: int = 40) -> Hist:
                     if set(s["bases"]) == set(protos[0]["bases"]) and others:
                         b2 = rng.choice(others)
                         s["bases"] = union_order.setdefault(frozenset([b2]), [b2])
-                s.update({"name": hname, "vfield": "v" if one_field else f"v{j}", "dialects": dial})
+                s.update({"name": hname, "vfield": (None if as_codec else "v") if one_field else f"v{j}", "dialects": dial})
+                if as_codec:
+                    s["wiring"] = "codec"
                 if one_field:
                     s["pos"] = j
                     s["twin"] = twin
@@ -477,7 +482,9 @@ def gen_history(rng, stream: str = "main", max_ops: int = 40) -> Hist:
                 for s in protos:
                     sites.append(dict(s))
                     unit[d].append(len(sites) - 1)
-            if one_field:
+            if as_codec:
+                src = f"{hname} = BasicDecoder(Tuple[" + ", ".join(site_type_src(s) for s in protos) + "])\n"
+            elif one_field:
                 src = f"@dataclass\nclass {hname}(DataClassDictMixin):\n    v: Tuple[" + ", ".join(site_type_src(s) for s in protos) + "]\n"
             else:
                 src = f"@dataclass\nclass {hname}(DataClassDictMixin):\n" + "".join(
@@ -485,7 +492,7 @@ def gen_history(rng, stream: str = "main", max_ops: int = 40) -> Hist:
             if dial:
                 src += "    class Config(BaseConfig):\n        code_generation_options = [ADD_DIALECT_SUPPORT]\n"
             units.append(unit)
-            script.append({"op": "exec", "src": src, **({"module": "b"} if rng.random() < 0.3 else {})})
+            script.append({"op": "exec", "src": src, **({"module": "b"} if (rng.random() < 0.3 and not as_codec) else {})})
             op_of_step.append(None)
             return
         s = site_settings(wiring, pick_mode() if stream != "kf" else False)
@@ -612,7 +619,8 @@ def gen_history(rng, stream: str = "main", max_ops: int = 40) -> Hist:
         else:
             parts = [gen_input(sites[i], [sites[j] for j in unit if j != i]) for i in unit]
             ops.append(("decodeseq", [(i, dict(k), pr) for i, (k, pr, _) in zip(unit, parts)]))
-            step = {"op": "decode", "call": f"{s['name']}.from_dict", "holder": False, "shape": None, "input": None,
+            step = {"op": "decode", "call": f"{s['name']}.decode" if s["wiring"] == "codec" else f"{s['name']}.from_dict",
+                    "holder": False, "shape": None, "input": None,
                     "multi": [[sites[i]["vfield"], sites[i]["shape"], pt[2]] + ([sites[i]["pos"]] if "pos" in sites[i] else [])
                               for i, pt in zip(unit, parts)]}
         if dialect:
@@ -851,12 +859,15 @@ def do_decode_raw(ns: dict, step: dict):
     if step.get("multi"):                  # one call of a holder with several discriminated fields
         ents = step["multi"]
         if len(ents[0]) > 3:               # the sites are the positions of ONE field: v: Tuple[<site 0>, <site 1>, ...]
-            arg = {ents[0][0]: [SHAPES[e[1]][1](e[2]) for e in ents]}
+            arg = [SHAPES[e[1]][1](e[2]) for e in ents]
+            if ents[0][0] is not None:     # (field name None: the Tuple is the type of a BasicDecoder)
+                arg = {ents[0][0]: arg}
         else:
             arg = {e[0]: SHAPES[e[1]][1](e[2]) for e in ents}
         try:
             r = fn(arg, dialect=ns[step["dialect"]]) if step.get("dialect") else fn(arg)
-            return ("many", [type(SHAPES[e[1]][2](getattr(r, e[0])[e[3]] if len(e) > 3 else getattr(r, e[0]))).__name__ for e in ents])
+            return ("many", [type(SHAPES[e[1]][2]((r if e[0] is None else getattr(r, e[0]))[e[3]] if len(e) > 3 else getattr(r, e[0]))).__name__
+                             for e in ents])
         except Exception as e:  # noqa: BLE001 - classified below
             return outcome_of_exc(e)
     shape = SHAPES[step["shape"]] if step.get("shape") else None
@@ -1028,7 +1039,13 @@ def run_history(h: Hist):
             if op[0] == "decodeseq":
                 # one call of a holder with several discriminated fields: every field by its own site, first error wins
                 obs = do_decode(ns, step)
-                hung = hung or obs == ("hang",)
+                if obs == ("hang",):
+                    # never silent, whatever the oracle has to say about the expected class: the call did not return
+                    hung = True
+                    observed[oi] = obs
+                    fails.append((k, f"{call_label(step)}({step.get('input')}) does not return (CPU-time watchdog)", "an instance or a documented error",
+                                  fmt(obs), {"kind": "dispatch-hang", "wiring": "any"}))
+                    continue
                 observed[oi] = obs
                 exp = ("many", [])
                 for (si, _, _), ent in zip(op[1], step["multi"]):
@@ -1050,7 +1067,13 @@ def run_history(h: Hist):
             s = h.sites[op[1]]
             if op[0] == "decodebad":
                 obs = do_decode(ns, step)
-                hung = hung or obs == ("hang",)
+                if obs == ("hang",):
+                    # never silent, whatever the oracle has to say about the expected class: the call did not return
+                    hung = True
+                    observed[oi] = obs
+                    fails.append((k, f"{call_label(step)}({step.get('input')}) does not return (CPU-time watchdog)", "an instance or a documented error",
+                                  fmt(obs), {"kind": "dispatch-hang", "wiring": "any"}))
+                    continue
                 observed[oi] = obs
                 # a field dispatcher names the problem (ValueError, /repo 60866ea); without a key nobody accepts the input
                 exp = ("notdict",) if s["field"] else ("notfound",)
@@ -1060,7 +1083,13 @@ def run_history(h: Hist):
                 continue
             shadow = shadowed(ns, n_classes) if not s["field"] else set()
             obs = do_decode(ns, step)
-            hung = hung or obs == ("hang",)
+            if obs == ("hang",):
+                # never silent, whatever the oracle has to say about the expected class: the call did not return
+                hung = True
+                observed[oi] = obs
+                fails.append((k, f"{call_label(step)}({step.get('input')}) does not return (CPU-time watchdog)", "an instance or a documented error",
+                              fmt(obs), {"kind": "dispatch-hang", "wiring": "any"}))
+                continue
             observed[oi] = obs
             if s["field"]:
                 exp, uq = spec_field(ns, n_classes, s, step["input"])
@@ -1697,7 +1726,7 @@ def run(ctx: vlib.Ctx):
         "class-level dispatchers, classes without own tag, tag value spectrum (falsy, None, bool/int/float/enum collisions, "
         "unhashable values), 1-2 key names per history, two variant_tagger_fn functions (bare or list results), classes "
         "whose own from_dict leaks a KeyError; sites = Config root / Annotated holder field / holder with 2-3 discriminated "
-        "fields or with ONE Tuple field of 2-3 discriminated positions (one call, several sites; 60% with EQUAL Discriminator settings over "
+        "fields or with ONE Tuple field of 2-3 discriminated positions - also as the type of a BasicDecoder - (one call, several sites; 60% with EQUAL Discriminator settings over "
         "different bases, inputs carrying the sibling position's tags) / BasicDecoder, over one class or a Union, 10 annotation shapes, holders in the "
         "classes' module or in another one, call-time dialects incl. first calls (one model site per holder x dialect), "
         "codecs with default_dialect, FORMATS (35% of the histories: mixin roots / holders that also provide from_msgpack and "
@@ -1928,7 +1957,8 @@ def replay(rep: dict) -> int:
                 print(f"step {k}: {step['call']}({step['input']}) -> {fmt(obs)}")
         print("expected:", rep["expected"], "observed now:", fmt(obs))
         exp = rep["expected"]
-        ok = fmt(obs) == exp or (exp.startswith("one of ") and fmt(obs) in exp[7:].split(","))
+        ok = (fmt(obs) == exp or (exp.startswith("one of ") and fmt(obs) in exp[7:].split(","))
+              or (exp == "an instance or a documented error" and obs is not None and obs[0] != "hang"))
         if not ok:
             print("REPRODUCED")
             return 1
